@@ -174,6 +174,25 @@ func init() {
 	I[rtPkg+"EmitS"] = emit
 	I[rtPkg+"EmitF"] = emit
 	I[rtPkg+"EmitB"] = emit
+	I[rtPkg+"LogAppend"] = func(th *Thread, fn *ssa.Function, args []Value) Value {
+		th.schedPoint("log")
+		th.m.sharedLog = append(th.m.sharedLog, args[0].(*Term))
+		return nil
+	}
+	I[rtPkg+"LogLen"] = func(th *Thread, fn *ssa.Function, args []Value) Value {
+		return th.m.ts.Const(64, uint64(len(th.m.sharedLog)))
+	}
+	I[rtPkg+"LogAt"] = func(th *Thread, fn *ssa.Function, args []Value) Value {
+		i := int(th.m.asInt(args[0]))
+		if i < 0 || i >= len(th.m.sharedLog) {
+			th.rtPanic("verifrt.LogAt index out of range")
+		}
+		return th.m.sharedLog[i]
+	}
+	I[rtPkg+"SetTicks"] = func(th *Thread, fn *ssa.Function, args []Value) Value {
+		th.m.maxTicks = int(th.m.asInt(args[0]))
+		return nil
+	}
 	I[rtPkg+"Explore"] = func(th *Thread, fn *ssa.Function, args []Value) Value {
 		m := th.m
 		m.explore = true
